@@ -96,6 +96,7 @@ build_alphabet(const char *name) {
   add_op("P1.0");                 /* empty value */
   add_op("B[P0.1,D0,P1.1]");      /* put+del of one key and another put in one batch */
   add_op("B[D1,P1.2]");           /* del then put of the same key */
+  add_op("B[]");                  /* empty batch */
   if (big)
     add_op("P0.4");               /* one value above max_file_size */
   add_op("F");
